@@ -42,7 +42,13 @@ def lib2d_batch(*paths):
         import pulp
 
         try:
-            print("broken-solver " + BpSeq.from_file(path).convert_to_dot_bracket(pulp.COIN_CMD(path="/nonexistent/vmon/cbc", msg=False)).structure)
+            from vmon import core
+
+            core.SolverWatch.injecting += 1  # this failure is the workload's own doing
+            try:
+                print("broken-solver " + BpSeq.from_file(path).convert_to_dot_bracket(pulp.COIN_CMD(path="/nonexistent/vmon/cbc", msg=False)).structure)
+            finally:
+                core.SolverWatch.injecting -= 1
         except Exception as e:
             print("broken-solver raised " + type(e).__name__)
 
@@ -259,6 +265,14 @@ def main():
     repo = os.environ.get("VERIF_REPO", "/repo")
     sys.path.insert(0, os.path.join(repo, "src"))
     what, argv = sys.argv[1], sys.argv[2:]
+    # failures of the MILP solver process that nothing injected are reported on stderr at exit (stdout and the written
+    # files are what gets compared; the caller repeats a run that carries this marker)
+    import atexit
+
+    from vmon import core
+
+    core.SolverWatch.install()
+    atexit.register(lambda: core.SolverWatch.unexpected and sys.stderr.write("\nVMON-SOLVER-FAILURE-NOBODY-INJECTED %d\n" % core.SolverWatch.unexpected))
     if what == "lib2d":
         return lib2d(*argv)
     if what == "lib3d":
